@@ -355,6 +355,28 @@ pub fn gen(rng: &mut Rng, tier: &str, execs: &mut Vec<Vec<Value>>) {
             }
         }
     }
+    // integer rates r for which r * (1/r) != 1 in binary64, with frequencies that are whole multiples of
+    // the rate (the phase must come back to exactly 0), and rates below 1 ("any positive sample rate")
+    for &r in &[49i64, 98, 103, 107, 161] {
+        for mode in ["const", "hz"] {
+            let mut ex = vec![json!({"ev":"reset","comp":"osc","cfg":{"mode":mode,"ratei":r}})];
+            let base = r * (1 + rng.below(3) as i64);
+            for j in 0..12 {
+                ex.push(hzi_op(if mode == "const" { base } else { r * (j % 4) as i64 }));
+            }
+            execs.push(ex);
+        }
+    }
+    for &rate in &[0.5f64, 0.25, 0.75, 0.1] {
+        for mode in ["const", "hz"] {
+            let mut ex = vec![json!({"ev":"reset","comp":"osc","cfg":{"mode":mode,"rate":f64f(rate)}})];
+            let base = rate * (1 + rng.below(7)) as f64 / 8.0;
+            for j in 0..16 {
+                ex.push(hz_op(if mode == "const" { base } else { rate * ((j * 3) % 11) as f64 / 8.0 }));
+            }
+            execs.push(ex);
+        }
+    }
     // tiny steps over long runs, reported as extremes
     let long = if thorough { 1_000_000u64 } else { 100_000 };
     for k in 0..(if thorough { 9 } else { 3 }) {
